@@ -163,6 +163,7 @@ func renderTSStream(st *sStream) {
 	sw := swWriter{&cur}
 	var tracks []*mpegts.Track
 	for _, t := range st.tracks {
+		t.ts = &mpegts.Track{Codec: t.ts.Codec} // a fresh track: the writer assigns PIDs
 		tracks = append(tracks, t.ts)
 	}
 	w := &mpegts.Writer{W: sw, Tracks: tracks}
